@@ -78,7 +78,30 @@ CLAIM = {
             'objects. R14 (257 / 258 / 300 users on one root, receive antennas, cover-code slots, channel taps, LS '
             'realizations / antennas / pilots; 65537 kept taps and antennas) by correspondence and oracle, the '
             'theorems having no size bound. A library exception inside a correspondence is a broken tie followed by '
-            'the failing-input search (exit 1), never exit 2.',
+            'the failing-input search (exit 1), never exit 2. Third robustness round: R15 (distinct values that are '
+            'merely close — one estimator object asked about observations that differ by 2^-20 relative / one unit in '
+            'the last place / the 13th decimal / 1e-9 absolute, magnitudes 1e-9, 4e-12, 4e-13, 1e-15 and 2.4e9 vs '
+            '2.4e9+2e4 one after the other, adjacent K; channels with taps 2^-30 below the main tap, pairs of channels '
+            'that differ by 2^-20 in one tap; pilot matrices whose Gram matrix is a multiple of the identity up to '
+            '2^-20 / 2^-32, nearly parallel pilot rows with a tolerance of 64 eps cond(S S^H) as the margin of the '
+            'near-tie, channel and pilot matrices that differ by 2^-20; raw reference arrays of norm 1 or 1 + 2^-20 that '
+            'are not flagged normalised; cover codes 2^-20 or one ulp away from +-1): theorems prime_lookup_exact, '
+            'prime_lookup_at_prime (the only value lookup of the model), cazac_estimate_separates, ls_separates '
+            '(channels that differ by any amount get different estimates) + correspondence + oracle (bitwise equal '
+            'to a fresh object on a copy, first-principles DFT sums / true response / H to 1e-11 / 1e-12 relative); '
+            'the code has no setter, cache or value-keyed lookup besides the prime table, so the rest of R15 is '
+            'checked as "every value gets its own result". R16 (argument identity and buffer reuse — one '
+            'preallocated array refilled in place between 2-4 calls, equal-content arrays that are other objects, '
+            'the argument overwritten right after the call, the same array object in two roles, for both '
+            'estimators in every layout, the raw-array reference, compute_ls_estimation 2-D / 3-D, get_extended_ZF, '
+            'get_shifted_root_seq / get_srs_seq / get_dmrs_seq, the + * [] helpers, DmrsUeSequence(cover_code), '
+            'CazacBasedChannelEstimator(<ndarray>)): theorems buffer_history_eq_fresh_calls, '
+            'buffer_earlier_results_kept, buffer_equal_content_refill on the state machine Cazac.BufState (the '
+            'callee sees the contents at call time), estimate_same_array_two_roles, ls_same_array + correspondence '
+            '(driver op buf runs BufState.run with the single-call model as callee; the code is called with one '
+            'refilled numpy array) + oracle. Known finding of R16: CazacBasedChannelEstimator(<ndarray>) keeps the '
+            'caller\'s array object, so estimators built from one refilled reference buffer all follow the buffer '
+            '(findings/C18.json).',
 }
 
 EPS = 2.0 ** -52
@@ -1076,7 +1099,9 @@ def check(ctx):
                 'sequences: all table rows, seeded (root, size, Nzc) incl. rejected arguments; estimators: seeded '
                 'user sequences (SRS/DMRS, shifts, cover codes, normalisation) x random observations (1-4 antennas, '
                 '1-D/2-D/3-D layouts) for the correspondence, and first-principles noise-free multi-user scenarios '
-                'with Gaussian-integer taps for the oracles; LS: Gaussian-integer pilots of full row rank. '
+                'with Gaussian-integer taps for the oracles; LS: Gaussian-integer pilots of full row rank; R15/R16: '
+                'deterministic scenario sets (every estimator kind x every kind of closeness; every entry point with an '
+                'array argument x refilled buffer) plus seeded ones. '
                 'non-trivial = distinct (call, input) with size >= 2 / sequence length > 24 / at least one tap')
     core.prove(ctx, MODULE, generated=['PrimeTable', 'C18RootTables'], drivers=[DRIVER], scratch=ctx.scratch)
     ctx.required_branches = ['lookup:size>=1013', 'root:table', 'root:zc-extended', 'root:zc-plain',
